@@ -143,7 +143,7 @@ def _xml_edit(rnd, r, o):
     else:
         p = ["x", "#e%d" % rnd.randrange(2), "#e%d" % rnd.randrange(2)]
     if p[-1].startswith("#t"):
-        op = rnd.choice(["ins", "ins", "del", "fmt"])
+        op = rnd.choice(["ins", "ins", "del", "fmt", "fmt"])
         return {"a": "uop", "op": op, "r": r, "p": p, "i": i, "n": rnd.choice([1, 1, 2]), "k": "u", "key": "b" if op == "fmt" else "", "o": o}
     if len(p) == 1 or rnd.random() < 0.5:
         op = rnd.choice(["ins", "ins", "del"])
@@ -183,6 +183,16 @@ def deep_schedules(ix, n, seed, xml=False):
             return {"a": "uop", "op": rnd.choice(["set", "set", "rem"]), "r": r, "p": ["m"], "key": key, "k": rnd.choice(["u", "u", "A", "M"]),
                     "i": 0, "n": 1, "o": o}
 
+        # thresholds of tracked edit / tick / undo / redo (rest: stop) among the manager's own activity
+        te, tt, tu, tr = (0.55, 0.68, 0.84, 0.96) if xml else (0.45, 0.60, 0.80, 0.96)
+        if xml:
+            # the fragment starts with some structure (tracked: captured as one or several steps; or of another origin)
+            o = rnd.choice(["U", "U", ""])
+            for st in XML_PRE[:rnd.choice([2, 3, 4, 4])]:
+                steps.append(dict(st, o=o))
+                slots += 1
+                if o == "U" and rnd.random() < 0.5:
+                    steps.append({"a": "tick", "ms": 600})
         for _ in range(nops):
             x = rnd.random()
             if x < pf:
@@ -198,15 +208,15 @@ def deep_schedules(ix, n, seed, xml=False):
                     inflight.append(slots)
                 elif inflight:
                     steps.append({"a": "dlv", "r": 1, "u": [inflight.pop(rnd.randrange(len(inflight)))]})
-            elif x < pf + 0.45 * (1 - pf):
+            elif x < pf + te * (1 - pf):
                 steps.append(edit(1, "U"))
                 slots += 1
-            elif x < pf + 0.60 * (1 - pf):
+            elif x < pf + tt * (1 - pf):
                 steps.append({"a": "tick", "ms": rnd.choice([600, 600, 200])})
-            elif x < pf + 0.80 * (1 - pf):
+            elif x < pf + tu * (1 - pf):
                 steps.append({"a": "undo", "r": 1})
                 slots += 1
-            elif x < pf + 0.96 * (1 - pf):
+            elif x < pf + tr * (1 - pf):
                 steps.append({"a": "redo", "r": 1})
                 slots += 1
             else:
